@@ -41,9 +41,9 @@ import hugr.tys as ht
 import hugr.val as hv
 
 __all__ = [
-    "run", "run_guppy", "Result", "Unsupported", "OutOfFuel", "InterpError",
+    "run", "run_guppy", "run_orders", "compare_behaviour", "Result", "Unsupported", "OutOfFuel", "InterpError",
     "Sum", "OBool", "Arr", "SArr", "FuncV", "Err", "Qubit", "BORROWED",
-    "to_hugr", "from_hugr", "shape_of_guppy_type", "TRUE", "FALSE", "UNIT",
+    "to_hugr", "from_hugr", "shape_of_guppy_type", "TRUE", "FALSE", "UNIT", "forget", "find_func", "Some", "Nothing",
 ]
 
 
@@ -389,7 +389,12 @@ class Interp:
         self.depth = 0
         self.trace: list = []
         self.calls: list = []
-        self._sched: dict[int, list] = {}
+        # schedules depend on the graph only: cached on the hugr object across runs (the hugr must not be mutated
+        # between runs; call `forget(hugr)` after a mutation)
+        try:
+            self._sched = hugr.__dict__.setdefault("_hugr_interp_sched", {})
+        except AttributeError:
+            self._sched = {}
         self._measure = measure
         self._seed = seed
         self._max_qubits = max_qubits
@@ -421,7 +426,7 @@ class Interp:
         return None
 
     def _schedule(self, parent) -> list:
-        key = parent.idx
+        key = (parent.idx, self.order if self._order_rng is None else None)
         got = self._sched.get(key)
         if got is not None and self._order_rng is None:
             return got
@@ -954,7 +959,7 @@ def _conv_generic(I, nm, op, ins, fr, n):
             if nm == "trunc_s":
                 ok = -(1 << (w - 1)) <= t < (1 << (w - 1))
             else:
-                ok = 0 <= t < (1 << w) and not f <= -1.0
+                ok = f >= 0.0 and t < (1 << w)  # any negative value (even in (-1, 0)) is an error; -0.0 is 0
             return [Sum(1, (t & ((1 << w) - 1),)) if ok else err]
         case "bytecast_float64_to_int64":
             return [struct.unpack("<Q", struct.pack("<d", ins[0]))[0]]
@@ -982,19 +987,19 @@ def _fdiv(a: float, b: float) -> float:
 
 
 def _fpow(a: float, b: float) -> float:
-    """C `pow` (what llvm.pow lowers to), via numpy so that domain / range errors give nan / inf"""
+    """C99 `pow` (Annex F special cases), which `llvm.pow` lowers to.  `math.pow` is the platform libm `pow` and
+    raises where C sets errno: those cases are mapped back to the C results.  Not correctly rounded: other libm
+    builds may differ in the last bit."""
     try:
-        import numpy as np
-
-        with np.errstate(all="ignore"):
-            return float(np.power(np.float64(a), np.float64(b)))
-    except ImportError:
-        try:
-            return math.pow(a, b)
-        except OverflowError:
-            raise Unsupported("arithmetic.float.fpow:overflow-without-numpy") from None
-        except ValueError:
-            raise Unsupported("arithmetic.float.fpow:domain-without-numpy") from None
+        return math.pow(a, b)
+    except OverflowError:
+        neg = a < 0 and b == math.floor(b) and math.fmod(b, 2.0) != 0.0
+        return -math.inf if neg else math.inf
+    except ValueError:
+        if a == 0.0 and b < 0:  # pole: pow(+-0, y<0)
+            odd = b == math.floor(b) and math.fmod(b, 2.0) != 0.0
+            return math.copysign(math.inf, a) if odd else math.inf
+        return math.nan  # negative base, finite non-integer exponent
 
 
 def _fround_away(a: float) -> float:
@@ -1368,7 +1373,11 @@ def _quantum_generic(I, nm, op, ins, fr, n):
                 raise Unsupported("tket.quantum.MeasureFree:arity")
             # /repo 0.21.6 declares the output as tket.bool; the op hands back an opaque bool there
             out_ty = _out_type(I, op, 0)
-            return [_b(r == 1) if out_ty == "Bool" else OBool(r == 1)]
+            if out_ty in ("Bool", "Measurement"):  # 1.0.4: tket.measurement.Measurement, read by `Read`
+                return [_b(r == 1)]
+            if out_ty == "bool":
+                return [OBool(r == 1)]
+            raise Unsupported(f"tket.quantum.MeasureFree -> {out_ty}")
     raise Unsupported(f"tket.quantum.{nm}")
 
 
@@ -1451,6 +1460,11 @@ def _futures_generic(I, nm, op, ins, fr, n):
 
 
 _EXT_GENERIC["tket.futures"] = _futures_generic
+
+
+@_ext("tket.measurement.Read")
+def _m_read(I, op, ins, fr, n):
+    return [_b(I._as_sum(ins[0]).tag == 1)]
 
 
 @_ext("tket.qsystem.utils.GetCurrentShot")
@@ -1616,6 +1630,11 @@ def shape_of_guppy_type(ty):
 # --------------------------------------------------------------------------------------
 # entry points
 # --------------------------------------------------------------------------------------
+def forget(hugr) -> None:
+    """drop the schedules cached on `hugr` (needed only if the graph was mutated after a run)"""
+    getattr(hugr, "__dict__", {}).pop("_hugr_interp_sched", None)
+
+
 def find_func(hugr, func_name):
     """the FuncDefn node named `func_name` (a Node is passed through)"""
     if not isinstance(func_name, str):
@@ -1687,6 +1706,30 @@ def run(hugr, func_name, args=(), *, order="default", fuel=2_000_000, measure=No
         res.status, res.msg, res.signal, res.origin = "exit", e.msg, e.signal, "program"
     res.trace, res.calls, res.steps = I.trace, I.calls, I.fuel0 - I.fuel
     return res
+
+
+def run_orders(hugr, func_name, args=(), orders=("default", "adversarial"), **kw) -> list[Result]:
+    """`run` once per schedule (same arguments otherwise)"""
+    return [run(hugr, func_name, args, order=o, **kw) for o in orders]
+
+
+def compare_behaviour(a: Result, b: Result) -> str:
+    """'same' | 'op-panic-overtakes' | 'different' for two runs of one program under different legal schedules.
+
+    'op-panic-overtakes': both runs panic inside an operation (division by zero, array `borrow` out of range …) and one
+    trace is a prefix of the other — such ops carry no order edge, so the panic may precede earlier `result`s of the same
+    region (the real 1.0.4 runtime behaves like the adversarial schedule here).  Anything else that differs is a missing
+    order edge between two side effects of the program."""
+    oa, ob = a.outcome(), b.outcome()
+    if a.status == "panic" and b.status == "panic" and a.origin == "op" and b.origin == "op":
+        oa = ob = ("panic", "<op>")
+    if oa == ob and a.trace == b.trace:
+        return "same"
+    if oa == ob and oa[0] == "panic" and a.origin == "op":
+        n = min(len(a.trace), len(b.trace))
+        if a.trace[:n] == b.trace[:n]:
+            return "op-panic-overtakes"
+    return "different"
 
 
 def run_guppy(defn, args=(), **kw) -> Result:
